@@ -272,8 +272,8 @@ class MPSLinear(nn.Linear, MPSModule):
         """
         v = dict(vars(self))
         # TODO: detach to be double-checked
-        v['in_channels'] = self.input_features_calculator.features.detach()
-        v['out_channels'] = self.out_features_eff
+        v['in_features'] = self.input_features_calculator.features.detach()
+        v['out_features'] = self.out_features_eff
         return v
 
     def get_cost(self, cost_fn: CostFn, out_shape: Dict[str, Any]) -> torch.Tensor:
